@@ -96,7 +96,7 @@ static void sim_cb(binson_parser *parser, uint16_t next_state, void *ctx) {
     PSession *s = (PSession *)ctx;
     s->cb_count++;
     if (s->cb_count > s->budget) siglongjmp(s->jb, 1);
-    if (g_yield_hook) g_yield_hook(Y_TOKEN);
+    if (g_yield_hook) { int saved = g_in_library; g_in_library = 0; g_yield_hook(Y_TOKEN); g_in_library = saved; }
 }
 
 PSession::~PSession() { block_free(pblk); block_free(sblk); block_free(bblk); }
@@ -325,6 +325,7 @@ Outcome PSession::call(const Op &op) {
 
     if (inited && !is_init) { p->cb = sim_cb; p->cb_context = this; }
     g_cur_session = this;
+    uint64_t gate0 = g_gate_hits.load();
     if (!guarded(op, o)) {
         // step budget exceeded inside the library call: deterministic liveness violation
         g_in_library = 0; g_cur_session = nullptr;
@@ -335,7 +336,9 @@ Outcome PSession::call(const Op &op) {
         return o;
     }
     g_cur_session = nullptr;
+    if (g_gate_hits.load() != gate0) sink.fail("C17.allocator_call", fmt("%s reached %s while inside the library", name, g_gate_last ? g_gate_last : "an allocator function"));
     if (o.skipped) return o;
+    bump(cnt, std::string("api.") + name);
     if (is_init) { p->cb = sim_cb; p->cb_context = this; }
 
     o.cb = cb_count; total_cb += cb_count; steps += cb_count;
@@ -452,6 +455,7 @@ Outcome WSession::call(const Op &op) {
     }
     block_free(arg);
     if (o.skipped) return o;
+    bump(cnt, std::string("api.") + name);
     o.err = err(); o.used = counter();
     latched = o.err != 0;
     if (latched && !was_latched) bump(cnt, std::string("werr.first.") + err_name(o.err));
